@@ -83,6 +83,20 @@ func (s *Server) HandlePutService(w http.ResponseWriter, r *http.Request) {
 
 	service.Metadata = *metadata
 
+	// remember what this name is registered as now, so that replacing it with metadata
+	// for a different entity ID does not leave the old entity ID registered
+	previous := Service{}
+	hadPrevious := false
+	switch err := s.Store.Get(fmt.Sprintf("/services/%s", r.PathValue("id")), &previous); err {
+	case nil:
+		hadPrevious = true
+	case ErrNotFound:
+	default:
+		s.logger.Printf("ERROR: %s", err)
+		http.Error(w, http.StatusText(http.StatusInternalServerError), http.StatusInternalServerError)
+		return
+	}
+
 	err = s.Store.Put(fmt.Sprintf("/services/%s", r.PathValue("id")), &service)
 	if err != nil {
 		s.logger.Printf("ERROR: %s", err)
@@ -91,6 +105,9 @@ func (s *Server) HandlePutService(w http.ResponseWriter, r *http.Request) {
 	}
 
 	s.idpConfigMu.Lock()
+	if hadPrevious && previous.Metadata.EntityID != service.Metadata.EntityID {
+		delete(s.serviceProviders, previous.Metadata.EntityID)
+	}
 	s.serviceProviders[service.Metadata.EntityID] = &service.Metadata
 	s.idpConfigMu.Unlock()
 
